@@ -72,3 +72,27 @@ pub fn range_of<'a>(blocks: &'a [(u64, Block)], s: u64, e: u64) -> Vec<(u64, &'a
 pub fn key_of<T: serde::Serialize>(v: &T) -> u64 {
     vpmodel::hashes::fnv64(serde_json::to_string(v).unwrap_or_default().as_bytes())
 }
+
+/// canonical form of a run's result for run-vs-run comparison
+pub fn canon(cb: vpmodel::run::Callback, out: &RunOut) -> String {
+    let so = vpmodel::parse::split_stdout(&out.stdout_text());
+    match cb {
+        vpmodel::run::Callback::CsvDump => out.files.iter().map(|(n, c)| format!("{}:{}\n", n, vpmodel::hashes::hex(&vpmodel::hashes::sha256(c)))).collect(),
+        vpmodel::run::Callback::UnspentCsvDump | vpmodel::run::Callback::Balances => out
+            .files
+            .iter()
+            .map(|(n, c)| {
+                let mut rows: Vec<String> = String::from_utf8_lossy(c).lines().map(|s| s.to_string()).collect();
+                let head = if rows.is_empty() { String::new() } else { rows.remove(0) };
+                rows.sort();
+                format!("{}:{}|{}\n", n, head, rows.join(","))
+            })
+            .collect(),
+        vpmodel::run::Callback::SimpleStats => match vpmodel::parse::parse_stats(&so) {
+            Ok(r) => format!("{:?}", r),
+            Err(e) => format!("unparsable: {}", e),
+        },
+        vpmodel::run::Callback::OpReturn => so.data,
+    }
+}
+
